@@ -25,6 +25,10 @@ FIELD_TYPES = {
     ('pjrpc.client.client:BaseAbstractClient', '_tracers'): 'list[=UserTracer]',
     ('pjrpc.common.v20:Response', '_error'): 'pjrpc.common.exceptions:JsonRpcError|=pjrpc.common.common:UnsetType',
     ('pjrpc.common.v20:BatchResponse', '_error'): 'pjrpc.common.exceptions:JsonRpcError|=pjrpc.common.common:UnsetType',
+    ('pjrpc.common.v20:BatchResponse', '_ids'): '=set',
+    ('pjrpc.common.v20:BatchRequest', '_ids'): '=set',
+    ('pjrpc.common.v20:BatchResponse', '_strict'): 'bool',
+    ('pjrpc.common.v20:BatchRequest', '_strict'): 'bool',
     ('pjrpc.common.v20:BatchResponse', '_responses'): 'list[=pjrpc.common.v20:Response]',
     ('pjrpc.common.v20:BatchRequest', '_requests'): 'list[=pjrpc.common.v20:Request]',
     ('pjrpc.client.retry:RetryStrategy', 'backoff'): 'pjrpc.client.retry:Backoff',
